@@ -7,7 +7,7 @@
    capacities, all valuations of the fields by opaque tokens. *)
 From Coq Require Import List NArith Arith Permutation.
 From Truc.Model Require Import Layout Builder Ir Gen Exec Ops.
-From Truc.Proofs Require Import ExecP Holds.
+From Truc.Proofs Require Import ExecP Holds Life Fill.
 From Truc.Current Require Runtime.
 Import ListNotations.
 
@@ -56,8 +56,37 @@ Theorem C04_new_uninit : forall v vals,
   exists b, op_new_uninit ds TI rt A cap v data vals = Ok (ORecord b, []) /\
             holds ds TI cap A (filter (fun i => negb (un ds i)) data) vals b.
 Proof. exact (new_uninit_holds ds TI rt A cap RT data L). Qed.
+
+(* ... and then written: after new_uninit, one write through the mutable accessor of each may-be-uninitialised
+   field (plain data: no drop glue - what the `T: Copy` bound of the gate enforces, C11) destroys nothing and
+   leaves a record that holds the mandatory values AND the written ones, i.e. the whole variant (as a set) *)
+Theorem C04_new_uninit_then_fill : forall v vals f,
+  (forall i, In i data -> un ds i = true -> dr ds TI i = false) ->
+  exists b0 b1 vals1,
+    op_new_uninit ds TI rt A cap v data vals = Ok (ORecord b0, []) /\
+    life ds TI rt b0 (assign_all f (filter (un ds) data)) = Ok (b1, []) /\
+    holds ds TI cap A data vals1 b1 /\
+    (forall i, In i data -> vals1 i = if un ds i then f i else vals i).
+Proof.
+  intros v vals f Hplain.
+  destruct (new_uninit_holds ds TI rt A cap RT data L v vals) as (b0 & E0 & H0).
+  pose proof (lo_nd _ _ _ _ _ L) as Hnd.
+  destruct (fill_holds ds TI rt A cap RT data L (filter (un ds) data) (filter (fun i => negb (un ds i)) data) vals b0 f H0)
+    as (b1 & vals1 & E1 & H1 & Hf & Ho).
+  - intros j Hj. apply filter_In in Hj. tauto.
+  - clear -Hnd. induction Hnd as [|x l Hx Hn IH]; simpl; [constructor|]. destruct (un ds x); auto. constructor; auto.
+    rewrite filter_In. tauto.
+  - intros i Hi. apply filter_In in Hi. destruct Hi as [Hi Hu]. split; auto. split; [|apply Hplain; auto].
+    rewrite filter_In. rewrite Hu. simpl. intros [_ Hq]. discriminate.
+  - exists b0, b1, vals1. split; [exact E0|]. split; [exact E1|].
+    split; [exact (holds_perm ds TI A cap _ _ vals1 b1 (split_un_perm (un ds) data) H1)|].
+    intros i Hi. destruct (un ds i) eqn:Eu.
+    + apply Hf. apply filter_In. auto.
+    + apply Ho. rewrite filter_In. rewrite Eu. intros [_ Hq]. discriminate.
+Qed.
 End C04.
 Print Assumptions C04_new.
+Print Assumptions C04_new_uninit_then_fill.
 Print Assumptions C04_get.
 Print Assumptions C04_unpack.
 Print Assumptions C04_set_frame.
